@@ -694,21 +694,30 @@ func runC04(r *rep.Report, thorough bool) error {
 	if err != nil {
 		r.Note("runall: %v", err)
 	}
+	specEnvOf := map[string]*irdump.Env{}
 	for _, ln := range lines {
 		a := byID[ln.Case]
 		cols := jsonCols[ln.Case][ln.Type]
 		if a == nil || len(cols) == 0 || ln.Fields == nil {
 			continue
 		}
+		// the types the documents are judged against: the analysis' own, with every enum as the
+		// specification model of the analysis lists it (from the go/types facts) — an enum the
+		// analysis lost or truncated is still an enum for the corruptions and for the model's verdict
+		evalEnv := specEnvOf[ln.Case]
+		if evalEnv == nil {
+			evalEnv = withSpecEnums(d, a, a.Env)
+			specEnvOf[ln.Case] = evalEnv
+		}
 		decl := map[string]*irdump.Decl{}
-		for _, dd := range a.Env.Decls {
+		for _, dd := range evalEnv.Decls {
 			decl[dd.Q] = dd
 		}
 		td := decl[a.Env.PkgPath+"."+ln.Type]
 		if td == nil {
 			continue
 		}
-		co := &corruptor{env: a.Env, decl: decl, rng: rng}
+		co := &corruptor{env: evalEnv, decl: decl, rng: rng}
 		for _, col := range cols {
 			var ft *irdump.Ty
 			for _, f := range td.Fields {
@@ -741,7 +750,7 @@ func runC04(r *rep.Report, thorough bool) error {
 				docs = append(docs, ov)
 				r.Hist("documents-with-omitted-empty-fields")
 			}
-			reply, err := d.Call(map[string]any{"op": "c04.eval", "env": a.Env, "type": ft, "docs": docs})
+			reply, err := d.Call(map[string]any{"op": "c04.eval", "env": evalEnv, "type": ft, "docs": docs})
 			if err != nil {
 				return err
 			}
